@@ -159,6 +159,7 @@ func ghost_nscans(rs *RetentionScanner) int { panic("ghost") }
 //@ func (*RetentionScanner).DoScan
 //@   requires rs.ds != nil
 //@   modifies *
+//@   ensures[assumedOwnFieldsUntouched] rs.ds == old(rs.ds) && rs.retentionShutdown == old(rs.retentionShutdown) && rs.retentionPeriod == old(rs.retentionPeriod) && ghost_closed(rs.retentionShutdown) == old(ghost_closed(rs.retentionShutdown))
 //@   attr log-count=ghost_nscans
 //@   serves C12
 
